@@ -69,7 +69,7 @@ ring pointers although the stack is sorted by y (stack cancellation justified ge
 """
 from .. import sorted as S
 from ..c10_util import (CallIndex, Facts, Obj, Poly, SymExec, UNK, Unsupported, callee_bodies, calls_of, edge_filter, facts_for_result, guard_set, is_noreturn,
-                        lazy_env, live, local_decl, pretty, product_worlds, reach_under, return_may_be_true, stat_fields, symbolic, tv)
+                        lazy_env, live, local_decl, pretty, product_worlds, reach_under, return_may_be_true, stat_fields, symbolic)
 from ..flow import describe_path, guards_of, path_search
 from ..ordertype import INT32, Inexact, worlds
 
